@@ -95,7 +95,7 @@ def check(name, allrules=True):
     dst = os.path.join(HERE, "seeded", name)
     d = selftest.make_scratch("/repo")
     try:
-        for pf in ("helper.diff", "patch.diff"):
+        for pf in ("patch.diff",):     # helper.diff only serves the demonstration (test-only re-exports)
             p = os.path.join(dst, pf)
             if os.path.exists(p):
                 r = subprocess.run(["patch", "-p1", "-s", "-i", p], cwd=d, capture_output=True, text=True)
